@@ -282,7 +282,11 @@ class CallStack(deque):
         while self.refstack:
             if self.refstack[-1][0] == self.counter:
                 _, ref = self.refstack.pop()
-                cells.model.refgraph.add_edge(ref, node)
+                if cells.is_cached:
+                    cells.model.refgraph.add_edge(ref, node)
+                elif self and self.idxstack[-1] >= 0:
+                    cells.model.refgraph.add_edge(
+                        ref, self[self.idxstack[-1]])
             else:
                 break
 
@@ -298,6 +302,10 @@ class CallStack(deque):
         graph = cells.model.tracegraph
         if graph.has_node(node):
             graph.remove_node(node)
+
+        refgraph = cells.model.refgraph
+        if refgraph.has_node(node):
+            refgraph.remove_with_referred((node,))
 
         while self.refstack:
             if self.refstack[-1][0] == self.counter:
